@@ -123,6 +123,19 @@ Definition exactb (P : problem) (G : list N) (h : history) : bool :=
   subsetb (cands_called h) (flat_map names_of (root_deps P :: map (p_deps U) G)) &&
   subsetb (flat_map names_of (root_deps P :: map (p_deps U) G)) (cands_called h).
 
+(* a LATER solve on the same solver (earlier history hprev): what it requests is needed by the
+   greedy selection of its own problem, and everything that selection needs was requested now or before *)
+Definition ExactNext (P : problem) (G : list N) (hprev hcur : history) : Prop :=
+  incl (deps_called hcur) G /\
+  incl (cands_called hcur) (flat_map names_of (root_deps P :: map (p_deps U) G)) /\
+  incl G (deps_called (hprev ++ hcur)) /\
+  incl (flat_map names_of (root_deps P :: map (p_deps U) G)) (cands_called (hprev ++ hcur)).
+Definition exact_nextb (P : problem) (G : list N) (hprev hcur : history) : bool :=
+  subsetb (deps_called hcur) G &&
+  subsetb (cands_called hcur) (flat_map names_of (root_deps P :: map (p_deps U) G)) &&
+  subsetb G (deps_called (hprev ++ hcur)) &&
+  subsetb (flat_map names_of (root_deps P :: map (p_deps U) G)) (cands_called (hprev ++ hcur)).
+
 (* ---------- C11: eager issue at quiescence ---------- *)
 
 (* whenever the solver is blocked, every candidates request implied by the
